@@ -715,6 +715,11 @@ func redactScalarValue(keyPath []string, v interface{}, isSearchStage bool, isSe
 		return v
 	}
 	parentKey = keyPath[len(keyPath)-1]
+	if parentKey == "subType" && grandParentKey == "$binary" {
+		// the BSON binary subtype is type information, not data (search stages
+		// do not see the core operator table that exempts it)
+		return v
+	}
 	switch parentKey {
 	case "$date":
 		if s, ok := v.(string); ok {
